@@ -137,6 +137,17 @@ def chunks : Nat → Nat → List α → List (List α)
   | _ + 1, _, [] => []
   | f + 1, k, l => l.take k :: chunks f k (l.drop k)
 
+/-- one chunk of `Poly::multi_eval`: a short chunk is padded with zero points up to `deg p` points
+(commit "fix: Poly::multi_eval …"), then tree, remainder tree, `truncate(chk.len())` -/
+def multiEvalChunk (c : Ctx) (o : Ops α) (p chk : List α) : Option (List α) :=
+  let pts := if chk.length + 1 < p.length then chk ++ List.replicate (p.length - 1 - chk.length) o.zero else chk
+  match productTree c o pts with
+  | none => none
+  | some tree =>
+    match multiEvalTree c o p tree with
+    | none => none
+    | some vs => some (vs.take chk.length)
+
 /-- `Poly::multi_eval(&self, a)` -/
 def multiEval (c : Ctx) (o : Ops α) (p a : List α) : Option (List α) :=
   if p.length = 0 ∨ a.length = 0 then none                          -- plen - 1, alen - 1
@@ -147,14 +158,7 @@ def multiEval (c : Ctx) (o : Ops α) (p a : List α) : Option (List α) :=
     if a.length > nchunks * chunklen then none                       -- assert!
     else
       (chunks a.length chunklen a).foldlM (fun (vals : List α) chk =>
-        -- a short chunk is padded with zero points up to deg(p) points (commit "fix: Poly::multi_eval …")
-        let pts := if chk.length + 1 < p.length then chk ++ List.replicate (p.length - 1 - chk.length) o.zero else chk
-        match productTree c o pts with
-        | none => none
-        | some tree =>
-          match multiEvalTree c o p tree with
-          | none => none
-          | some vs => some (vals ++ vs.take chk.length)) []
+        (multiEvalChunk c o p chk).map fun vs => vals ++ vs) []
 
 /-- `p` reduced by the monic `q` of the same length when its top coefficient is non-zero:
 `resize(1 + n)`, `if c[n] != 0 { c -= q; assert!(c[n] == 0) }`, `truncate(n)` -/
